@@ -718,7 +718,7 @@ func c15Schema(steps []string, edges map[string][]string, extraDeclared []string
 			{N: "_dependencies", M: "reg", H: 1, Ty: &CTy{T: "deplist", V: deps}},
 		}}
 		f := &CField{N: name, M: "reg", Ty: st}
-		if strings.Contains(name, "-") || strings.Contains(name, "\\") {
+		if strings.Contains(name, "-") || strings.Contains(name, "\\") || (name != "" && name[0] >= '0' && name[0] <= '9') {
 			f.Q = 1 // a name that CUE only takes as a quoted label (a backslash is written twice inside the quotes)
 		}
 		if strings.HasPrefix(name, "_") { // a hidden root field (not one of the base paths): a step like the others as far as availability goes
@@ -839,7 +839,7 @@ func (c *Ctx) c15Check(root *CTy, txt string, all []string, cp, target, cls stri
 }
 
 func genC15(c *Ctx) {
-	c.Rule = "dependency graphs over k steps (every subset of the k*k edges, self-loops and cycles included): all graphs over 3 steps in the quick tier (2^9) and all over 4 steps in the thorough tier (2^16, one current step per graph, chosen by a hash of the edge set: 65536 (graph, current step) pairs x 7 targets instead of 4 x as many; the quick tier samples 800 graphs with every current step), each x every current step (3 steps) x every root field as target (steps, a merely declared step, a hidden root field `_s1` next to `s1`, input, variables); steps whose names hold a backslash (written quoted and escaped in CUE, plain in a query); fields below the root named like blocked steps (`$.input.items[@.s2.Equal(..)]`, `$.input.items.First().s2`: accepted, they are element fields), the target read at the head of the path; for a sample also inside a filter, a function argument, a nested group, an argument of a call on a value parsed inside the query (`….ParseJSON().token.Equal($.s1.name)`), and with the root field written with its `?` mark (`$.s1?.name`, also inside an argument); the 3-step graphs again with the root fields declared in three other orders (steps before input, reversed, rotated); plus random graphs of up to 12 steps (chains, diamonds, fan-in, dangling names). Oracle: accepted iff the target is a base path or in the transitive closure of the current step's _dependencies, and is not the current step itself (unless input); the fields offered at the root are exactly the non-blocked ones; a dependency naming an undeclared step yields an error result; every call returns within the watchdog. distinct = distinct (class, verdict)"
+	c.Rule = "dependency graphs over k steps (every subset of the k*k edges, self-loops and cycles included): all graphs over 3 steps in the quick tier (2^9) and all over 4 steps in the thorough tier (2^16, one current step per graph, chosen by a hash of the edge set: 65536 (graph, current step) pairs x 7 targets instead of 4 x as many; the quick tier samples 800 graphs with every current step), each x every current step (3 steps) x every root field as target (steps, a merely declared step, a hidden root field `_s1` next to `s1`, input, variables); steps whose names hold a backslash (written quoted and escaped in CUE, plain in a query); fields below the root named like blocked steps (`$.input.items[@.s2.Equal(..)]`, `$.input.items.First().s2`: accepted, they are element fields), the target read at the head of the path; for a sample also inside a filter, a function argument, a nested group, an argument of a call on a value parsed inside the query (`….ParseJSON().token.Equal($.s1.name)`), and with the root field written with its `?` mark (`$.s1?.name`, also inside an argument); the 3-step graphs again with the root fields declared in three other orders (steps before input, reversed, rotated); plus random graphs of up to 12 steps (chains, diamonds, fan-in, dangling names); root fields that are different spellings of one UUID (lower case, capitals, without dashes): different fields; dense graphs without cycles of 14, 22 and 28 steps (every step depends on all earlier ones: 2^(k-1) routes, one visit per step). Oracle: accepted iff the target is a base path or in the transitive closure of the current step's _dependencies, and is not the current step itself (unless input); the fields offered at the root are exactly the non-blocked ones; a dependency naming an undeclared step yields an error result; every call returns within the watchdog. distinct = distinct (class, verdict)"
 	run := func(k int, mask uint64, cls string, positions bool) {
 		var steps []string
 		for i := 0; i < k; i++ {
@@ -1057,6 +1057,36 @@ func genC15(c *Ctx) {
 			for _, target := range all {
 				c.c15Check(root, txt, all, cp, target, cls, j == 0 && c.R.Intn(4) == 0)
 			}
+		}
+	}
+	// root fields that are different spellings of one UUID are different root fields: one is a dependency, the others are merely declared
+	{
+		u := "3dedbf75-1c91-4ec5-8018-99b1efe47462"
+		steps := []string{"cur", u, "other"}
+		extra := []string{strings.ToUpper(u), strings.ReplaceAll(u, "-", ""), "0cc175b9c0f1b6a831c399e269772661"}
+		for _, edges := range []map[string][]string{{"cur": {u}}, {"cur": {"other"}, "other": {u}}, {"cur": {}}, {"cur": {extra[1]}}} {
+			root, txt := c15Schema(steps, edges, extra)
+			all := append(append([]string{"input", "variables"}, steps...), extra...)
+			for _, target := range all {
+				c.c15Check(root, txt, all, "cur", target, "uuid-spellings", true)
+			}
+		}
+	}
+	// a dense graph without cycles (every step depends on all earlier ones): the walk visits each step once, so this ends at once
+	// however many routes lead to a step. (Last: a validation that does not end keeps the validator's lock.)
+	for _, k := range []int{14, 22, 28} {
+		var steps []string
+		edges := map[string][]string{}
+		for i := 0; i < k; i++ {
+			steps = append(steps, fmt.Sprintf("d%d", i+1))
+			for j := 0; j < i; j++ {
+				edges[steps[i]] = append(edges[steps[i]], steps[j])
+			}
+		}
+		root, txt := c15Schema(steps, edges, []string{"lonely"})
+		all := append(append([]string{"input", "variables"}, steps...), "lonely")
+		for _, target := range []string{"d1", steps[k-1], "lonely", "input"} {
+			c.c15Check(root, txt, all, steps[k-1], target, fmt.Sprintf("dense-acyclic/%d-steps", k), false)
 		}
 	}
 	_ = sort.Strings
